@@ -243,6 +243,7 @@ func c12SockRun(p c12SockPlan) (*common.Fail, string) {
 		var mu sync.Mutex
 		var seen gwSeen
 		acked := make(chan uint8, 64)
+		var outstanding atomic.Int32
 		var client atomic.Pointer[net.UDPAddr]
 		connected := make(chan struct{})
 		go func() {
@@ -279,12 +280,28 @@ func c12SockRun(p c12SockPlan) (*common.Fail, string) {
 				case *knxnet.DiscReq:
 					pc.WriteToUDP(knxnet.AllocAndPack(&knxnet.DiscRes{Channel: v.Channel, Status: 0}), from)
 				case *knxnet.TunnelRes:
+					// the acknowledgement rules of C04: the connection's channel, status OK, the number of the telegram
+					// under way (or, for a repetition that crossed its acknowledgement, of the one before)
+					if cur := int(outstanding.Load()); v.Channel != 9 || v.Status != knxnet.NoError || (int(v.SeqNumber) != cur%256 && int(v.SeqNumber) != (cur+255)%256) {
+						mu.Lock()
+						if seen.garbled == "" {
+							seen.garbled = fmt.Sprintf("acknowledgement %+v while telegram #%d (channel 9, sequence number %d) is the one under way", *v, cur, cur%256)
+						}
+						mu.Unlock()
+					}
 					select {
 					case acked <- v.SeqNumber:
 					default:
 					}
 				case *knxnet.TunnelReq:
 					pc.WriteToUDP(knxnet.AllocAndPack(&knxnet.TunnelRes{Channel: v.Channel, SeqNumber: v.SeqNumber, Status: knxnet.NoError}), from)
+					if v.Channel != 9 {
+						mu.Lock()
+						if seen.garbled == "" {
+							seen.garbled = fmt.Sprintf("request on channel %d (the connection's channel is 9): %x", v.Channel, buf[:n])
+						}
+						mu.Unlock()
+					}
 					if int(v.SeqNumber) == lastSeq {
 						continue // a repetition
 					}
@@ -309,6 +326,7 @@ func c12SockRun(p c12SockPlan) (*common.Fail, string) {
 		go func() {
 			from := client.Load()
 			for i := 0; i < nInd; i++ {
+				outstanding.Store(int32(i))
 				req := knxnet.AllocAndPack(&knxnet.TunnelReq{Channel: 9, SeqNumber: uint8(i), Payload: &cemi.LDataInd{LData: confLData(i)}})
 				for try := 0; try < 10; try++ {
 					pc.WriteToUDP(req, from)
@@ -549,6 +567,21 @@ func TestC04Sock(t *testing.T) {
 	}
 	common.Drive(t, rec, func(rt *rapid.T) c12SockPlan {
 		p := c12SockPlan{Kind: "tunnel-tcp"}
+		if rapid.Bool().Draw(rt, "duplex-udp") {
+			// UDP, both directions at once through one kernel socket: the acknowledgements of the gateway's telegrams
+			// leave while the application's requests and their repetitions do
+			p.Kind = "tunnel-duplex"
+			for i := 0; i < rapid.IntRange(20, 80).Draw(rt, "events-duplex"); i++ {
+				n := rapid.SampledFrom([]int{1, 2, 5, 14, 15, 40, 120, 254}).Draw(rt, "size")
+				b := common.GenBytes(rt, "data", n, n)
+				b[0] &= 0x3f
+				p.Events = append(p.Events, c12Event{Cmd: 2, Hex: fmt.Sprintf("%x", b), Dest: uint16(1 + i)})
+			}
+			rec.Class("udp tunnel: duplex traffic")
+			rec.NonTrivial(common.HashJSON(p))
+			rec.Sample("duplex", p)
+			return p
+		}
 		for i := 0; i < rapid.IntRange(1, 60).Draw(rt, "telegrams"); i++ {
 			n := rapid.SampledFrom([]int{1, 2, 5, 14, 15, 40, 120, 254}).Draw(rt, "size")
 			b := common.GenBytes(rt, "data", n, n)
